@@ -623,15 +623,21 @@ func genC10Lin(t *rapid.T) *C10Case {
 		for i := 0; i < fill; i++ {
 			c.Setup = append(c.Setup, LRUOp{Kind: "S", Key: fmt.Sprintf("k%d", i), Val: 5000 + i})
 		}
+		// (several goroutines dump at once; a Store is often followed by a Dump of the same goroutine, which
+		// has to list what was just stored)
+		twoDumpers := rapid.Bool().Draw(t, "twoDumpers")
 		for g := 0; g < 3; g++ {
 			var ops []LRUOp
 			nb := rapid.IntRange(1, 4).Draw(t, "bigN")
 			for i := 0; i < nb; i++ {
 				switch {
-				case g == 0:
+				case g == 0 || (g == 1 && twoDumpers):
 					ops = append(ops, LRUOp{Kind: "P"})
 				case rapid.Bool().Draw(t, "bigStore"):
 					ops = append(ops, LRUOp{Kind: "S", Key: fmt.Sprintf("n%d_%d", g, i), Val: 9000 + g*10 + i})
+					if rapid.Bool().Draw(t, "dumpAfterStore") {
+						ops = append(ops, LRUOp{Kind: "P"})
+					}
 				default:
 					ops = append(ops, LRUOp{Kind: rapid.SampledFrom([]string{"L", "D"}).Draw(t, "bigOp"), Key: fmt.Sprintf("k%d", rapid.IntRange(0, c.Cap-1).Draw(t, "bigKey"))})
 				}
